@@ -390,7 +390,92 @@ int main(int argc, char** argv) {
   f8.chunk = 16;
   f8.rule = "all ordered pairs (S1,S2) of 8 strings (empty, 1, 2, 3, 12, 39, 40 bytes, one with an escape) as existing / new value at the root, in a member, in a nested member next to a sibling holding S1, in an array; x 4 states of the existing document (parsed / maps / maps after add+remove / API-built with constant strings whose bytes must not change)";
 
+  // SF: a REJECTED ParseSchema, then continued use. T1 is every proper prefix (and the text with one byte garbled) of a
+  // schema text; its error must be reported and the document must stay a valid tree; the next, valid ParseSchema must
+  // give merge(whatever the document then holds, T2)
+  static const char* kSFe[] = {"{\"a\":1,\"b\":\"s\"}", "{\"a\":{\"a\":1},\"b\":[1]}", "[1,2]", "null", "{\"a\":[],\"b\":{}}"};
+  static const char* kSFt1[] = {"{\"b\":[[1,2],[3]]}", "{\"b\":[{\"k\":true}],\"a\":{\"x\":[{\"y\":1}]}}", "[[1,2],[3,{\"a\":[4]}]]", "{\"a\":{\"a\":{\"a\":[1,[2]]}}}", "{\"a\":\"str\",\"b\":[\"p\",[\"q\"]]}"};
+  static const char* kSFt2[] = {"{\"a\":{\"n\":1}}", "{\"b\":{\"n\":[1]},\"a\":2}", "{\"a\":[1]}", "[{\"a\":1}]", "{\"a\":{\"a\":{}},\"b\":{\"k\":\"v\"}}", "{\"b\":\"s\"}"};
+  vr::Family f9;
+  f9.name = "SF_rejected_then_valid";
+  f9.count = 5 * 5 * 64 * 2 * 6;
+  f9.group = "SF";
+  f9.chunk = 64;
+  f9.rule = "5 existing documents x (every proper prefix, and every single-byte garbling, of 5 schema texts that build containers 2-4 levels deep) as a REJECTED ParseSchema x 6 valid texts afterwards: the rejection is reported, the document stays a valid tree (read back completely), and the second call yields merge(that tree, text); pool and freeing allocator under ASan";
+
   vr::CheckFn check = [&](const vr::Family& f, uint64_t idx, vr::Ctx& ctx) {
+    if (f.name[1] == 'F') {
+      unsigned t2i = (unsigned)(idx % 6);
+      idx /= 6;
+      unsigned garble = (unsigned)(idx % 2);
+      idx /= 2;
+      unsigned cut = (unsigned)(idx % 64);
+      idx /= 64;
+      std::string t1 = kSFt1[idx % 5];
+      std::string et = kSFe[idx / 5];
+      if (cut >= t1.size()) {
+        ctx.skip();
+        return;
+      }
+      if (garble)
+        t1[cut] = t1[cut] == '}' ? ']' : '}';
+      else
+        t1.resize(cut);
+      ref::Result r1 = ref::parse(t1), r2 = ref::parse(std::string(kSFt2[t2i])), re = ref::parse(et);
+      if (r1.ok) {  // the garbled text happens to be valid
+        ctx.skip();
+        return;
+      }
+      ctx.eval();
+      ctx.nontriv();
+      std::string desc = "E=" + et + "  T1(rejected)=" + t1 + "  T2=" + kSFt2[t2i];
+      if (ctx.want_sample) ctx.sample(desc);
+      auto run = [&](auto* tagdoc, const char* tag) {
+        using Doc = typename std::remove_pointer<decltype(tagdoc)>::type;
+        Doc doc;
+        doc.Parse(et);
+        {
+          ExactBuf b1(t1);
+          doc.ParseSchema(b1.p, b1.n);
+          std::memset(b1.p, '#', b1.n);
+        }
+        // (a fault inside the value of an UNDECLARED key is skipped, not parsed: such a text may be accepted; the statement
+        // speaks of valid texts only, so this is no verdict - the case simply does not test a rejection)
+        if (!doc.HasParseError()) return;
+        // whatever the document holds now, it must be a valid tree: read it back through every accessor
+        ref::Value mid = sc::to_ref(doc);
+        std::string acc = sc::compare(doc, mid);
+        if (!acc.empty()) {
+          ctx.violation("schema_accessor", "schema_after_rejection_inconsistent", desc, "[%s] after the rejected call the document is inconsistent: %s", tag, acc.c_str());
+          return;
+        }
+        const std::string t2s = kSFt2[t2i];
+        ExactBuf b2(t2s);
+        doc.ParseSchema(b2.p, b2.n);
+        std::memset(b2.p, '#', b2.n);
+        if (doc.HasParseError()) {
+          ctx.violation("schema_error", std::string("schema_error_") + tag, desc, "[%s] valid ParseSchema after a rejected one reports code %d", tag, (int)doc.GetParseError());
+          return;
+        }
+        ref::Value want = merge(mid, r2.v);
+        ref::Value got = sc::to_ref(doc);
+        if (!ref::identical(got, want)) {
+          std::string where = "$";
+          std::string cls = classify(mid, r2.v, got, where);
+          ctx.violation("schema_result", cls == "schema_mismatch" ? std::string("schema_mismatch_after_rejection") : cls + "_repeated", desc, "[%s] after a rejected ParseSchema the next one gives %s, expected %s (document before it: %s)", tag, ref::show(got).substr(0, 200).c_str(), ref::show(want).substr(0, 200).c_str(),
+                        ref::show(mid).substr(0, 200).c_str());
+          return;
+        }
+        acc = sc::compare(doc, want);
+        if (!acc.empty()) ctx.violation("schema_accessor", "schema_accessor_mismatch", desc, "[%s] %s", tag, acc.c_str());
+      };
+      run((PoolDoc*)nullptr, "pool");
+#if HAVE_ASAN
+      run((SimpleDoc*)nullptr, "simple");
+#endif
+      (void)re;
+      return;
+    }
     if (f.name[1] == 'Q') {
       int emode = (int)(idx % 4);
       idx /= 4;
@@ -565,7 +650,7 @@ int main(int argc, char** argv) {
 #endif
   };
 
-  std::vector<vr::Family> fams = {f1, f2, f3, f4, f5, f6, f7, f8};
+  std::vector<vr::Family> fams = {f1, f2, f3, f4, f5, f6, f7, f8, f9};
   if (args.replay) return R.replay_one(fams, check);
   const std::string only = args.get("only");
   for (auto& f : fams)
